@@ -10,6 +10,8 @@ from props import c01
 ID = 'C03'
 THEOREMS = [
     'Sourcer.C01_codegen_refines_peg',
+    'Sourcer.C01_meaning_independent_of_fuel',
+    'Sourcer.C01_codegen_refines_peg_from_there_on',
     'Sourcer.C03_len_bounds',
     'Sourcer.C03_sep_allow_empty',
     'Sourcer.C03_sep_require_separator',
